@@ -43,6 +43,10 @@ type Config struct {
 	Strategy string // "", "uniform", "sticky50", "sticky90", "pct1".."pct3", "rr", "first"
 	MaxSteps int
 	Horizon  time.Duration
+	// Lockset: check every instrumented access to a map-typed struct field
+	// against the locks the accessing task holds (Eraser's lockset discipline
+	// with read/write lock modes); violations are listed in Result.Races.
+	Lockset bool
 }
 
 // Result is everything a run produced.
@@ -58,6 +62,7 @@ type Result struct {
 	SimTime    time.Duration
 	Sig        uint64
 	Panics     []string
+	Races      []string // lockset violations (Config.Lockset)
 	Strategy   string
 	Probes     map[string]int
 }
@@ -71,6 +76,25 @@ type task struct {
 	pri     float64
 	done    bool
 	boosted bool
+	held    []heldLock // simulated locks this task holds (lockset checker)
+}
+
+type heldLock struct {
+	l     any
+	write bool
+}
+
+// objState is Eraser's per-variable state: virgin -> exclusive(owner) ->
+// shared (read by a second task) -> shared-modified (written after sharing).
+// cand is the candidate lockset: the locks that protected every access so far
+// (a read is protected by a lock held in any mode, a write only by a lock held
+// in write mode).
+type objState struct {
+	state    int
+	owner    *task
+	cand     map[any]bool
+	lastSite [2]string // last read / write site
+	reported bool
 }
 
 type ticket struct {
@@ -103,6 +127,7 @@ type Sim struct {
 	adoptN   int
 	sigh     uint64
 	probes   map[string]int
+	objs     map[any]*objState
 }
 
 var cur *Sim // one run at a time per process
@@ -128,6 +153,108 @@ func (s *Sim) taskOf() *task {
 	t := s.tasks[g]
 	s.mu.Unlock()
 	return t
+}
+
+// LockAcquired / LockReleased: simsync reports the simulated locks the calling
+// task holds (lockset checker).
+func LockAcquired(l any, write bool) {
+	s := cur
+	if s == nil || !s.cfg.Lockset {
+		return
+	}
+	if t := s.taskOf(); t != nil {
+		t.held = append(t.held, heldLock{l, write})
+	}
+}
+
+func LockReleased(l any, write bool) {
+	s := cur
+	if s == nil || !s.cfg.Lockset {
+		return
+	}
+	if t := s.taskOf(); t != nil {
+		for i := len(t.held) - 1; i >= 0; i-- {
+			if t.held[i].l == l && t.held[i].write == write {
+				t.held = append(t.held[:i], t.held[i+1:]...)
+				return
+			}
+		}
+	}
+}
+
+// Access is called by the instrumented code before a statement that reads or
+// writes a map-typed struct field (obj = the field's address). Not a
+// scheduling point. With Config.Lockset the access is checked against the
+// lockset discipline; the first violation per field is recorded.
+func Access(obj any, site string, write bool) {
+	s := cur
+	if s == nil || !s.cfg.Lockset {
+		return
+	}
+	t := s.taskOf()
+	if t == nil {
+		return
+	}
+	s.mu.Lock()
+	defer s.mu.Unlock()
+	if s.objs == nil {
+		s.objs = map[any]*objState{}
+	}
+	o := s.objs[obj]
+	if o == nil {
+		o = &objState{}
+		s.objs[obj] = o
+	}
+	prot := map[any]bool{}
+	for _, h := range t.held {
+		if h.write || !write {
+			prot[h.l] = true
+		}
+	}
+	k := 0
+	if write {
+		k = 1
+	}
+	defer func() { o.lastSite[k] = site + " by task " + t.id }()
+	switch o.state {
+	case 0:
+		o.state, o.owner = 1, t
+		return
+	case 1:
+		if o.owner == t {
+			return
+		}
+		o.cand = prot
+		if write {
+			o.state = 3
+		} else {
+			o.state = 2
+		}
+	default:
+		for l := range o.cand {
+			if !prot[l] {
+				delete(o.cand, l)
+			}
+		}
+		if write {
+			o.state = 3
+		}
+	}
+	if o.state == 3 && len(o.cand) == 0 && !o.reported {
+		o.reported = true
+		mode := "read"
+		if write {
+			mode = "write"
+		}
+		s.res.Races = append(s.res.Races, fmt.Sprintf("%s of a shared map field at %s by task %s holding %d lock(s) in a protecting mode: no lock protects every access (last read at %s, last write at %s)", mode, site, t.id, len(prot), orNone(o.lastSite[0]), orNone(o.lastSite[1])))
+	}
+}
+
+func orNone(s string) string {
+	if s == "" {
+		return "none"
+	}
+	return s
 }
 
 // Active reports whether the caller is a task of a running simulation.
